@@ -85,14 +85,21 @@ def clone_mesh(mesh):
     return simlib.mesh_from_arrays([(g.elemType.name, g.connect) for g in mesh.dict_groupElem.values()], mesh.coord)
 
 
+MESH_COUNTER = [0]
+
+
 def second_mesh(elem):
     """another mesh of the same dimension: different coordinates, node count and connectivity (first-order elements: their
-    reference gradients are exact in floats, so rigid motions cancel exactly in the Jacobians)"""
+    reference gradients are exact in floats, so rigid motions cancel exactly in the Jacobians).  Every call returns its own
+    coordinates, so that ending up on the wrong one of two replacement meshes is visible."""
+    k = MESH_COUNTER[0]
+    MESH_COUNTER[0] += 1
+    sc = np.array([1.0 + 0.25 * k, 1.0 + 0.125 * (k % 3), 1.0])
     if elem == "TETRA4":
         m = simlib.small_mesh("tetra2")
-        A = np.array([[1.25, 0.25, 0], [0.0, 0.75, 0], [0, 0, 1.5]])
+        A = np.array([[1.25, 0.25, 0], [0.0, 0.75, 0], [0, 0, 1.5]]) * sc
         return simlib.transform_mesh(m, A=A, b=np.array([0.5, -0.25, 0.0]))
-    X = np.array([[0.5, -0.25, 0], [1.75, -0.25, 0], [2.0, 0.5, 0], [0.75, 0.5, 0], [1.5, 1.25, 0]])
+    X = np.array([[0.5, -0.25, 0], [1.75, -0.25, 0], [2.0, 0.5, 0], [0.75, 0.5, 0], [1.5, 1.25, 0]]) * sc
     return simlib.mesh_from_arrays([("TRI3", [[0, 1, 2], [0, 2, 3], [3, 2, 4]]), ("SEG2", [[0, 1], [1, 2], [2, 4], [4, 3], [3, 0]])], X[:, :3]) if elem != "QUAD4" else \
         simlib.mesh_from_arrays([("QUAD4", [[0, 1, 2, 3]]), ("SEG2", [[0, 1], [1, 2], [2, 3], [3, 0]])], X[:4])
 
@@ -116,6 +123,7 @@ class World:
             if shared:
                 # second simulation on the same model and the same mesh object
                 self.sims.append(cls(mesh, self.model, verbosity=False))
+        self.extra = []  # (label, got, want) comparisons known independently of the simulation's own state
         self.P = [{"rho": 1.0, "damp": (0.0, 0.0), "bc": [], "algo": None} for _ in self.sims]
         for i, s in enumerate(self.sims):
             self.set_rho(i, 2.5 + i)
@@ -262,11 +270,15 @@ def op_apply(w, name, V, tag):
         #  re-initialised by the mesh replacement)
         s.Save_Iter()
         n0 = s.Niter - 1
+        coord0, connect0 = np.asarray(s.mesh.coord, dtype=object).copy(), np.asarray(s.mesh.connect).copy()
         s.mesh = second_mesh(w.elem)
         s.Get_K_C_M_F()
         s.Save_Iter()
         s.Set_Iter(n0)
         w.P[0]["bc"] = []
+        # the mesh that comes back is the one that was current when iteration n0 was saved (known independently of the simulation)
+        w.extra.append(("mesh restored by Set_Iter (coordinates)", np.asarray(s.mesh.coord, dtype=object).reshape(-1), coord0.reshape(-1)))
+        w.extra.append(("mesh restored by Set_Iter (connectivity)", np.asarray(s.mesh.connect, dtype=object).reshape(-1), np.asarray(connect0, dtype=object).reshape(-1)))
     else:
         raise KeyError(name)
 
@@ -319,6 +331,7 @@ def run(cfg, V):
     """executes the sequence; returns {sim index: (observations of the mutated simulation, of the fresh one)}"""
     import contextlib
 
+    MESH_COUNTER[0] = 0
     w = World(cfg["sim"], cfg["elem"], shared=cfg.get("shared", False))
     un = w.unknowns()
     for i, s in enumerate(w.sims):
@@ -341,6 +354,9 @@ def run(cfg, V):
         for i in range(len(w.sims)):
             got = observe(w, i, V)
             want = observe(w, i, V, s=w.fresh(i))
+            if i == 0:
+                got = got + [(lab, g) for lab, g, _ in w.extra]
+                want = want + [(lab, wv) for lab, _, wv in w.extra]
             out[i] = (got, want)
     return out
 
@@ -434,6 +450,13 @@ def configs(tier):
         pairs = [(a, b) for a in ops for b in ops]
         for a, b in pairs:
             out.append({"sim": sim, "elem": elem, "ops": [a, b]})
+        # histories of mesh replacements and restored iterations: all triples (thorough: quadruples) over the history operations
+        hist = ["newmesh", "set_iter", "coord", "bc"]
+        for seq in itertools.product(hist, repeat=3):
+            out.append({"sim": sim, "elem": elem, "ops": list(seq)})
+        if tier == "thorough":
+            for seq in itertools.product(hist + ["translate"], repeat=4):
+                out.append({"sim": sim, "elem": elem, "ops": list(seq)})
         # shared model and mesh: both simulations observed
         for o in (ops if tier == "thorough" else [par[0], "thickness", "rho", "translate", "coord", "newmesh", "bc"]):
             out.append({"sim": sim, "elem": elem, "ops": [o], "shared": True})
